@@ -1055,8 +1055,8 @@ func (ds *AnySource) ChangeTriggerState(state *FullTriggerState) error {
 		return fmt.Errorf("got ConfigureTriggers with no valid ChannelIndices")
 	}
 	for _, channelIndex := range state.ChannelIndices {
-		if channelIndex >= ds.nchan {
-			return fmt.Errorf("channelIndex %v is >= ds.nchan %v", channelIndex, ds.nchan)
+		if channelIndex >= ds.nchan || channelIndex < 0 {
+			return fmt.Errorf("channelIndex %v is not in [0, ds.nchan=%v)", channelIndex, ds.nchan)
 		}
 	}
 	for _, channelIndex := range state.ChannelIndices {
